@@ -4700,3 +4700,135 @@ def ob_lock_rule(ctx, m, position):
             res.status, res.detail = 'inconclusive', f'vacuous: admit={saw_a} reject={saw_r}'
     res.time = time.time() - t0
     return res
+
+
+# ---------------------------------------------------------------------------------------------------------------------
+# C15: the fold step for a multi-task job, route-level estimates of any sign
+
+def ob_fold_step_multi(ctx):
+    """C15 (per-leaf fold step, multi-task job): `eval_job_insertion_in_route(.., alternative)` -> `eval_multi` (real MIR incl.
+    the shadow tour and `analyze_insertion_in_route`) for a two-task job on an empty closed tour, every candidate feasible,
+    a symbolic route-level estimate of ANY sign (the shipped minimize-unassigned objective quotes -1 per job), non-negative
+    activity-level estimates per (task, leg) and a symbolic alternative (success with a cost of any sign): the step is `min` -
+    cost(result) == min(cost(alternative), route estimate + estimate of task 1 + estimate of task 2) - which is what makes
+    the outcome of `evaluate_all` independent of how rayon groups the (route, job) pairs."""
+    from symex import DynV
+    name = 'fold_step_multi[k=0,tasks=2]'
+    res = Result(name)
+    res.bounds = ('empty closed tour, job with 2 tasks in fixed order, all candidates feasible; route-level estimate and alternative cost symbolic in [-2^20, 2^20], '
+                  'activity-level estimates symbolic in [0, 2^20]; BestResultSelector')
+    t0 = time.time()
+    fn = ctx.prog.find_free('eval_job_insertion_in_route')
+    B = 2 ** 20
+
+    class Env(drivers.Env):
+        def override(self, engine, st, callee, args, dest_ty):
+            if callee.endswith('GoalContext::evaluate') or callee.endswith('GoalContext::estimate'):
+                mc = deref_all(args[1])
+                if mc.variant() == 0:     # route level
+                    if callee.endswith('evaluate'):
+                        return mk_option(False, ty='Option<ConstraintViolation>')
+                    return self.struct('insertions::InsertionCost', data=VecV([self.sym_f_path(st, 'route_estimate', -B, B)]))
+                if callee.endswith('evaluate'):
+                    return mk_option(False, ty='Option<ConstraintViolation>')
+                actx = deref_all(mc.payload[1][2])
+                idx = self.field(actx, 'context::ActivityContext', 'index').concrete()
+                target = deref_all(self.field(actx, 'context::ActivityContext', 'target'))
+                jb = self.field(target, 'route::Activity', 'job')
+                task = next(i for i, c in enumerate(self.services) if jb.payload[1][0].cell is c)
+                return self.struct('insertions::InsertionCost', data=VecV([self.sym_f_path(st, f'act_estimate_task{task}_leg{idx}', 0, B)]))
+            if callee.endswith('GoalContext::accept_route_state'):
+                return UnitV()
+            if callee.endswith('Multi::permutations'):
+                return VecV([VecV([ArcV(c) for c in self.services])])
+            if callee.endswith('InsertionCost::max_value'):
+                return RefV(Cell(self.struct('insertions::InsertionCost', data=VecV([FV.max_value()]))), 0)
+            if 'HashMap' in callee and callee.split('::<')[0].endswith('get') or ('HashMap' in callee and '>::get' in callee):
+                return mk_option(False, ty=dest_ty)
+            if callee.endswith('UnwrapValue>::unwrap_value'):
+                cf = args[0]
+                v = cf.variant()
+                if v is None:
+                    v = 0 if engine.split_bool(st, cf.discr == 0) else 1
+                return cf.payload[v][0]
+            return super().override(engine, st, callee, args, dest_ty)
+
+        def dyn_call(self, engine, st, trait, method, args, dest_ty):
+            if trait == 'ResultSelector':
+                fns = engine.prog.find_method('BestResultSelector', method, trait='ResultSelector')
+                if len(fns) == 1:
+                    return engine.exec_fn(st, fns[0], args)
+                return engine.exec_fn(st, self._trait_default('ResultSelector', method), args)
+            return super().dyn_call(engine, st, trait, method, args, dest_ty)
+
+    env = Env(ctx.prog, ctx.layout, 16)
+    eng = symex.Engine(ctx.prog, ctx.layout, env)
+
+    def body(st):
+        env.assumptions.clear()
+        spec = TourSpec(env, 0, True)
+        rc = spec.build()
+        singles = []
+        for i in range(2):
+            place = env.struct('jobs::Place', location=mk_option(True, IV(70 + i), ty='Option<usize>'), duration=FV.const(0),
+                               times=VecV([EnumV('domain::TimeSpan', 0, {0: [env.time_window(FV.const(0), FV.max_value())]})]))
+            singles.append(ArcV(Cell(env.struct('jobs::Single', places=VecV([place]), dimens=StateV()))))
+        env.services = [s_.cell for s_ in singles]
+        mo = ctx.layout.fields('jobs::Multi')
+        multi = Agg('struct', [Opaque(f) for f in mo], 'jobs::Multi')
+        multi.fields[mo.index('jobs')] = VecV(singles)
+        job = EnumV('jobs::Job', 1, {1: [ArcV(Cell(multi))]})
+        goal = ArcV(Cell(Opaque('goal')))
+        order = ctx.layout.fields('domain::Problem')
+        problem = Agg('struct', [Opaque(f) for f in order], 'domain::Problem')
+        problem.fields[order.index('goal')] = goal
+        so = ctx.layout.fields('context::SolutionContext')
+        solution = Agg('struct', [Opaque(f) for f in so], 'context::SolutionContext')
+        ictx = env.struct('context::InsertionContext', problem=ArcV(Cell(problem)), solution=solution, environment=Opaque('environment'))
+        eval_ctx = env.struct('evaluators::EvaluationContext', goal=RefV(goal.cell, 0), job=RefV(Cell(job), 0),
+                              leg_selection=RefV(Cell(EnumV('selectors::LegSelection', 1, {})), 0), result_selector=RefV(Cell(DynV('selector')), 0))
+        alt_cost = env.struct('insertions::InsertionCost', data=VecV([env.sym_f('alternative_cost', -B, B)]))
+        alt = EnumV('insertions::InsertionResult', 0, {0: [env.struct('insertions::InsertionSuccess', cost=alt_cost, job=Opaque('other_job'),
+                                                                      activities=VecV([]), actor=Opaque('other_actor'))]})
+        return eng.exec_fn(st, fn, [RefV(Cell(ictx), 0), RefV(Cell(eval_ctx), 0), RefV(Cell(rc), 0), EnumV('evaluators::InsertionPosition', 0, {}), alt])
+
+    paths = eng.explore(body, max_paths=4000)
+    res.paths = len(paths)
+    res.functions |= eng.functions_used
+    r, a0 = z3.Int('route_estimate'), z3.Int('alternative_cost')
+    c1, c2 = z3.Int('act_estimate_task0_leg0'), z3.Int('act_estimate_task1_leg1')
+    domain = [z3.And(r >= -B, r <= B), z3.And(a0 >= -B, a0 <= B), z3.And(c1 >= 0, c1 <= B), z3.And(c2 >= 0, c2 <= B)]
+    saw_alt = saw_own = False
+    for st, out in paths:
+        if out is None:
+            if not no_panic(ctx, res, env, st, domain, what=name):
+                break
+            continue
+        if out.variant() != 0:
+            claim = z3.BoolVal(False)          # an alternative exists: the step can never answer with a failure
+            rcost = None
+        else:
+            s_ = out.payload[0][0]
+            rcost = s_.fields[ctx.layout.fields('insertions::InsertionSuccess').index('cost')].fields[0].items[0]
+            total = r + c1 + c2
+            claim = z3.And(z3.Not(rcost.m), rcost.v == z3.If(a0 <= total, a0, total))
+        if not decide_claim(ctx, res, env, st, claim, domain, what=f'{name}: cost(result) == min(alternative, route estimate + both activity estimates)'):
+            if res.status == 'violated' and res.model is not None:
+                m = res.model
+                ev = lambda t: m.eval(t, model_completion=True).as_long()
+                # the same situation through the public API: job0 (single) sets the alternative, job1 is the two-task job (its activity-level
+                # estimate applies per task: the mean of the two keeps the total), fillers keep a single-threaded run sequential
+                res.case = {'kind': 'fold_order', 'routes': 1, 'multi_jobs': [1],
+                            'route_estimates': [ev(a0), ev(r), 10 ** 6, 10 ** 6], 'activity_estimates': [0, (ev(c1) + ev(c2)) / 2, 0, 0]}
+            break
+        if not no_panic(ctx, res, env, st, domain, what=name):
+            break
+        if rcost is not None:
+            saw_alt = saw_alt or witness(ctx, res, env, st, z3.And(rcost.v == a0, a0 < r + c1 + c2), domain)
+            saw_own = saw_own or witness(ctx, res, env, st, z3.And(rcost.v == r + c1 + c2, a0 > r + c1 + c2), domain)
+    if res.status == 'holds':
+        res.witnesses = int(saw_alt) + int(saw_own)
+        if not (saw_alt and saw_own):
+            res.status, res.detail = 'inconclusive', f'vacuous: alternative kept={saw_alt} own insertion chosen={saw_own}'
+    res.time = time.time() - t0
+    return res
